@@ -280,7 +280,12 @@ func (namespaceManager *NamespaceManager) GetPrefixMappingForExpansion(uriExpans
 
 func (namespaceManager *NamespaceManager) GetPrefixToExpansionMap() (result map[string]string) {
 	namespaceManager.lock.Lock()
-	result = namespaceManager.prefixToExpansionMapping
+	// hand out a copy: the internal map keeps changing when new namespaces are asserted, while the
+	// caller reads and serialises the result without holding the lock
+	result = make(map[string]string, len(namespaceManager.prefixToExpansionMapping))
+	for prefix, expansion := range namespaceManager.prefixToExpansionMapping {
+		result[prefix] = expansion
+	}
 	namespaceManager.lock.Unlock()
 	return
 }
